@@ -102,23 +102,23 @@ Proof. exact rerun_full. Qed.
 Print Assumptions C09_rerun_full.
 
 (* the same after a longer history: generate(force) of this client, then possibly the generation of ANOTHER client
-   that uses the same core, then generate(no force).  PARTIAL: false when the core is nested two or more packages
-   inside this client's directory and another client was generated in between (F09h, C09_refuted_F09h).
-   Full statement:  forall g found touched, … -> run_noforce (existing_after g found touched) = (ROk, _). *)
-Theorem C09_rerun_history_partial : forall san g found touched,
-  dedup_total san g = true -> wf_layout san g = true -> guard_F09h g touched = true ->
+   that uses the same core, then generate(no force).  FULL since the fix of F09h (the __init__.py chain of a core
+   nested inside the client directory is created on every path). *)
+Theorem C09_rerun_history_full : forall san g found touched,
+  dedup_total san g = true -> wf_layout san g = true ->
   run_noforce san g (existing_after san g found touched) = (ROk, existing_after san g found touched).
-Proof. exact rerun_history_partial. Qed.
-Print Assumptions C09_rerun_history_partial.
+Proof. exact rerun_history_full. Qed.
+Print Assumptions C09_rerun_history_full.
 
-Theorem C09_refuted_F09h :
-  guard_F09h g_F09h true = false /\ dedup_total Proofs.Diff.idS g_F09h = true /\ wf_layout Proofs.Diff.idS g_F09h = true /\
+Theorem C09_regression_F09h :
+  dedup_total Proofs.Diff.idS g_F09h = true /\ wf_layout Proofs.Diff.idS g_F09h = true /\
   gap_inits g_F09h = [([s_c1; s_x; s_init], CEmpty)] /\
-  rerun_differing Proofs.Diff.idS g_F09h (existing_after Proofs.Diff.idS g_F09h [] true) = [[s_c1; s_x; s_init]] /\
-  fst (run_noforce Proofs.Diff.idS g_F09h (existing_after Proofs.Diff.idS g_F09h [] true)) = RDifferences /\
+  tlookup [s_c1; s_x; s_init] (tree_force Proofs.Diff.idS g_F09h []) = Some CEmpty /\
+  tlookup [s_c1; s_x; s_init] (tree_temp Proofs.Diff.idS g_F09h []) = Some CEmpty /\
+  fst (run_noforce Proofs.Diff.idS g_F09h (existing_after Proofs.Diff.idS g_F09h [] true)) = ROk /\
   fst (run_noforce Proofs.Diff.idS g_F09h (existing_after Proofs.Diff.idS g_F09h [] false)) = ROk.
-Proof. exact refuted_F09h. Qed.
-Print Assumptions C09_refuted_F09h.
+Proof. exact regression_F09h. Qed.
+Print Assumptions C09_regression_F09h.
 
 (* conversely a *.py file present on both sides whose text is not what would be generated now makes the
    non-force run fail (for ANY existing tree) *)
@@ -175,8 +175,7 @@ Theorem C09_guard_nonvacuous :
    show_diffs old_F09b [(p_client, t_a1 ++ t_a1); (p_stale, t_a1)] = true) /\
   (dedup_total Proofs.Diff.idS g_plain = true /\ wf_layout Proofs.Diff.idS g_plain = true /\
    length (tree_force Proofs.Diff.idS g_plain []) = 15%nat /\
-   dedup_total Proofs.Diff.idS g_F09d = true /\ wf_layout Proofs.Diff.idS g_F09d = true /\
-   guard_F09h g_F09d true = true /\ guard_F09h g_F09h false = true).
+   dedup_total Proofs.Diff.idS g_F09d = true /\ wf_layout Proofs.Diff.idS g_F09d = true).
 Proof.
   exact (conj site2_nonvacuous (conj guard_diff_nonvacuous modes_nonvacuous)).
 Qed.
